@@ -328,6 +328,8 @@ void QXmppIncomingClient::handleStanza(const QDomElement &nodeRecv)
                 disconnectFromHost();
             }
         } else if (auto abort = Sasl2::Abort::fromDom(nodeRecv)) {
+            // the exchange is over: an answer of the password checker that is still on its way must not complete it
+            d->saslServer.reset();
             d->sasl2AuthRequest.reset();
             sendData(serializeXml(Sasl2::Failure { Sasl::ErrorCondition::Aborted, {} }));
         }
